@@ -40,7 +40,7 @@ RULE = (
     "operations, colour a function of the job, injective over the jobs shown (asserted for instances of at most 10 jobs: a qualitative colour map has ten colours) "
     "and equal to the legend patch with that job's label, legend labels = jobs "
     "shown in order, x axis = (0, xlim or makespan) with the last tick there "
-    "(when positive); optionally a second chart of another schedule of the same instance is drawn before the first is inspected. Kind 'anim': instance x history of n operations (n in "
+    "(when positive); job labels may repeat; plotting leaves the schedule object unchanged and the run can be finished from it; optionally a second chart of another schedule of the same instance is drawn before the first is inspected. Kind 'anim': instance x history of n operations (n in "
     "1..30, or 100..130 - forced by a fixed case in every run), frames "
     "directory with digits in its path: (i) short histories: a wrapper around "
     "the library's plotter records at its k-th call the schedule it is given "
@@ -51,7 +51,7 @@ RULE = (
     "dispatcher); (ii) frame ORDER in the written file: a "
     "custom plot function draws k = number of scheduled operations as a "
     "binary block pattern, the GIF (and, thorough tier, the mp4) is read back "
-    "and decoded; the sequence must be 1..n - also when the caller's own existing frames directory is used for a second, shorter animation, and when frames are kept (remove_frames=False) and the directory is used again for an animation of the same length (the plot function must be called for every frame again). Non-trivial: chart with >=2 jobs "
+    "and decoded; the sequence must be 1..n - also when the frames differ in pixel width, when the caller's own existing frames directory is used for a second, shorter animation, and when frames are kept (remove_frames=False) and the directory is used again for an animation of the same length (the plot function must be called for every frame again). Non-trivial: chart with >=2 jobs "
     "and >=2 machines carrying bars; animation with n >= 100."
 )
 BUDGET = {"quick": 100, "thorough": 800}
@@ -86,7 +86,7 @@ def strategy(tier):
             "inst": gen.instances(min_jobs=2, max_jobs=4, max_ops=4, max_machines=3, max_total=8),
             "history": gen.histories(max_len=10),
             "mode": gen.pick(
-                ["frames", "gif", "gif_kept_history", "creator", "creator_second_episode", "solver", "order", "order_creator_history", "order_frames_dir"]
+                ["frames", "gif", "gif_kept_history", "creator", "creator_second_episode", "solver", "order", "order_creator_history", "order_frames_dir", "order_varying_size"]
             ),
             "rule": gen.pick(["most_work_remaining", "shortest_processing_time", "first_come_first_served", "most_operations_remaining"]),
         }
@@ -185,7 +185,7 @@ def fixed_cases(tier):
         "ints": True,
         "family": "fixed",
     }
-    for mode in ("frames", "gif", "gif_kept_history", "creator", "creator_second_episode", "solver", "order_frames_dir"):
+    for mode in ("frames", "gif", "gif_kept_history", "creator", "creator_second_episode", "solver", "order_frames_dir", "order_varying_size"):
         cases.append(
             {"kind": "anim", "inst": small, "history": [[0, 0], [2, 0], [2, 0], [0, 0], [0, 0]], "mode": mode, "rule": "most_work_remaining"}
         )
@@ -198,6 +198,18 @@ def fixed_cases(tier):
             "xlim_extra": None,
             "cmap": "viridis",
             "labels": False,
+            "via_creator": False,
+        }
+    )
+    cases.append(
+        {
+            "kind": "chart",
+            "inst": small,
+            "history": [[2, 0], [1, 0], [0, 0]],
+            "cut": 3,
+            "xlim_extra": 2,
+            "cmap": "viridis",
+            "labels": True,  # (history length 3: labels repeat)
             "via_creator": False,
         }
     )
@@ -369,6 +381,11 @@ def chart_case(case, ctx):
         ctx.label("chart_after_reset")
     n_jobs = len(inst["durations"])
     labels = [f"J{j}x" for j in range(n_jobs)] if case["labels"] else None
+    if case["labels"] and len(case["history"]) % 3 == 0:
+        # several jobs may carry the same label (two product types)
+        labels = [["Gear", "Shaft"][j % 2] for j in range(n_jobs)]
+        ctx.label("repeated_job_labels")
+    rows_before = fp.schedule(d.schedule)
     try:
         if case["via_creator"]:
             creator = GanttChartCreator(d, partial_gantt_chart_plotter_config={"cmap": case["cmap"]})
@@ -401,8 +418,27 @@ def chart_case(case, ctx):
                 )
     finally:
         plt.close("all")
+    # drawing is a read-only use of the schedule: the dispatcher's schedule
+    # is as it was, and the run can go on from it
+    ctx.check(
+        fp.schedule(d.schedule) == rows_before,
+        "plot-changed-schedule",
+        f"the schedule object was changed by plotting it: {fp.schedule_rows(d.schedule)}",
+    )
+    was_complete = model.complete()
+    while not model.complete():
+        j, p = model.ready()[0]
+        mm = inst["machines"][j][p][0]
+        d.dispatch(instance.jobs[j][p], mm)
+        model.apply(j, mm)
+    ctx.check(
+        d.schedule.makespan() == model.makespan()
+        and sorted(r for lst in fp.schedule_rows(d.schedule) for r in lst) == sorted((j, p, s, e, mm) for (j, p, mm, s, e) in model.order),
+        "plot-changed-schedule",
+        f"after a chart was drawn mid-run the finished schedule differs from its history: makespan {d.schedule.makespan()} vs {model.makespan()}",
+    )
     ctx.label(*gen.inst_labels(inst))
-    ctx.label("prefix" if not model.complete() else "complete")
+    ctx.label("prefix" if not was_complete else "complete")
     ctx.nontrivial = machines >= 2 and jobs >= 2
 
 
@@ -411,14 +447,16 @@ def chart_case(case, ctx):
 BITS = 8
 
 
-def pattern_plotter(calls):
+def pattern_plotter(calls, vary=False):
     """Plot function that encodes k = number of scheduled operations as
     [black][8 bit blocks, black = 1][black] on a white figure."""
 
     def plot(schedule, makespan=None, available_operations=None, current_time=None):
         k = schedule.num_scheduled_operations
         calls.append(k)
-        fig = plt.figure(figsize=(2.4, 0.4), dpi=50)
+        # (vary: frames of different pixel widths, as figures with a tight
+        # bounding box have)
+        fig = plt.figure(figsize=(2.4 + (0.8 if vary and k % 3 != 1 else 0.0), 0.4), dpi=50)
         fig.patch.set_facecolor("white")
         ax = fig.add_axes([0.05, 0.1, 0.9, 0.8])
         row = [0.0] + [0.0 if (k >> (BITS - 1 - i)) & 1 else 1.0 for i in range(BITS)] + [0.0]
@@ -619,7 +657,7 @@ def anim_case(case, ctx):
                 )
         else:
             calls = []
-            plotter = pattern_plotter(calls)
+            plotter = pattern_plotter(calls, vary=(mode == "order_varying_size"))
             if mode == "order_video":
                 path = os.path.join(tmp, "video_5.mp4")
                 try:
